@@ -29,7 +29,7 @@ import ast
 import z3
 
 from .npmodel import ArrObj, TArr
-from .values import BoundMethod, BuiltinV, ClassV, ListObj, Ref, SV, T, TBool, TInt, TList, TOpt, TReal, Unsupported, _dt_cache, type_of_value
+from .values import BoundMethod, BuiltinV, ClassV, ListObj, Ref, SV, T, TBool, TDict, TInt, TList, TOpt, TReal, TStr, Unsupported, _dt_cache, type_of_value
 
 CPE = "gemseo.core.parallel_execution.callable_parallel_execution.CallableParallelExecution"
 
@@ -46,6 +46,54 @@ def _ty(ex, v):
         if isinstance(o, ArrObj):
             return TArr(o.kind, o.rank)
     return type_of_value(ex.st, v)
+
+
+class TNamesTuple(T):
+    """``*names``: a tuple of 1..kmax lists of names (the verification forks on the arity; a call site has a concrete arity)."""
+
+    def __init__(self, kmax=2):
+        self.kmax = kmax
+        self.name = f"Names[<={kmax}]"
+
+    def fresh(self, st, hint):
+        k = 1 + st.choose(self.kmax)
+        return tuple(TList(TStr).fresh(st, f"{hint}{i}") for i in range(k))
+
+
+class TByArity(T):
+    """A type that depends on the arity of the ``*names`` argument of the function it belongs to (result of split_array_to_dict_of_arrays)."""
+
+    def __init__(self, by_arity: dict):
+        self.by_arity = by_arity
+        self.name = "ByArity[" + ",".join(f"{k}:{v!r}" for k, v in sorted(by_arity.items())) + "]"
+
+    def resolve(self, ex):
+        k = getattr(ex, "_c16_call_arity", None)  # set while a callee contract is being applied (coercion of its *names argument)
+        ex._c16_call_arity = None
+        if k is None:
+            k = len(ex.frame.env["names"])
+        return self.by_arity[k]
+
+    def fresh(self, st, hint):
+        return self.resolve(st.ex).fresh(st, hint)
+
+
+class ZeroTolCtx:
+    """The context manager returned by DisciplineJacApprox.__set_zero_cache_tol()."""
+
+    def __init__(self, owner):
+        self.owner = owner
+
+
+def dict_total(t):
+    return z3.Function("dict_total", t.sort(), z3.IntSort())
+
+
+class PyListV:
+    """A Python list of non-embeddable items of concrete length (``[slice(None)] * array.ndim``), local to one function."""
+
+    def __init__(self, items):
+        self.items = list(items)
 
 
 class RepeatV:
@@ -232,7 +280,78 @@ class C16Models:
             return CConstV(v.real, v.imag)
         return NotImplemented
 
+    def coerce(self, ex, v, t):
+        if isinstance(t, TNamesTuple):
+            if isinstance(v, tuple) and ex.frame.env.get("names") is not v:
+                ex._c16_call_arity = len(v)  # a call site: remembered for the result type of the callee contract
+            return v
+        if isinstance(t, TByArity):
+            return ex.coerce(v, t.resolve(ex))
+        if _on(ex) and isinstance(v, tuple) and not v and isinstance(t, TList):
+            o = ListObj(t.t, z3.IntVal(0), ex.st.fresh_const("emptyl", z3.ArraySort(z3.IntSort(), t.t.sort())))  # () for a sequence parameter
+            o.ty = t
+            return ex.st.alloc(o)
+        # a range handed to a callee contract that declares a list of ints: the same sequence as a list
+        if _on(ex) and isinstance(v, SV) and getattr(v.ty, "name", "") == "Rec[range]" and isinstance(t, TList) and t.t == TInt:
+            seq = ex.to_iter(v, 0)
+            i = z3.Int("i!rl")
+            bi = ex.st.fresh_int("bi")
+            o = ListObj(TInt, z3.simplify(seq.n), z3.Lambda([i], z3.substitute(seq.elem(bi).term, (bi, i))))
+            o.ty = t
+            return ex.st.alloc(o)
+        return NotImplemented
+
+    # ------------------------------------------------------------------ discipline-level glue (compute_approx_jac)
+    def call_repo_model(self, ex, fi, args, kwargs, lineno):
+        if _on(ex) and fi.qualname.endswith("DisciplineJacApprox.__set_zero_cache_tol"):
+            return ZeroTolCtx(args[0])
+        return NotImplemented
+
+    def enter_context(self, ex, v, node):
+        if not isinstance(v, ZeroTolCtx):
+            return NotImplemented
+        # @contextmanager __set_zero_cache_tol: with no cache it only yields (the cache-tolerance save/restore is not modelled)
+        cache = ex.get_attr(ex.get_attr(v.owner, "discipline", 0), "cache", 0)
+        if cache is not None:
+            raise Unsupported("__set_zero_cache_tol with a cache")
+        return None
+
     def call_builtin(self, ex, name, args, kwargs, lineno, node=None):
+        if _on(ex) and name == "numpy.atleast_2d" and len(args) == 1 and isinstance(args[0], Ref) and isinstance(ex.st.heap.get(args[0].id), ArrObj) \
+                and ex.st.heap[args[0].id].rank == 2:
+            return args[0]
+        if _on(ex) and name == "numpy.zeros" and len(args) == 1 and not kwargs and isinstance(args[0], Ref) and isinstance(ex.st.heap.get(args[0].id), ListObj):
+            L = ex.st.heap[args[0].id]
+            n = z3.simplify(L.n)
+            if L.t == TInt and z3.is_int_value(n) and n.as_long() == 2:
+                return _np().call_builtin(ex, name, [tuple(SV(z3.simplify(L.elems[q]), TInt) for q in range(2))], {}, lineno)
+        if _on(ex) and name == "sum" and len(args) == 1 and not kwargs and type(args[0]).__name__ == "DictView" and args[0].kind == "values":
+            o = ex.st.heap[args[0].ref.id]
+            if o.v == TInt and not o.is_empty_literal:
+                # sum of the values of a dict of ints: an uninterpreted function of the dict (the contracts producing such dicts state its value)
+                t = TDict(o.k, TInt)
+                ex.assumed.add("sum(dict.values()) of a dict of ints: the function dict_total of the dict content (its value is stated by the contract that builds the dict)")
+                return SV(dict_total(t)(t.dt.mk(o.member, o.vals, o.n)), TInt)
+        if _on(ex) and name == "slice" and 1 <= len(args) <= 3 and not kwargs:
+            # slice objects: the representation of subscript slices (engine.ev_slice)
+            lo, hi, step = (None, args[0], None) if len(args) == 1 else (args[0], args[1], args[2] if len(args) == 3 else None)
+            return ("slice", lo, hi, step)
+        if _on(ex) and name == "tuple" and len(args) == 1 and isinstance(args[0], PyListV):
+            return tuple(args[0].items)
+        if _on(ex) and name == "numpy.array" and len(args) == 1 and isinstance(args[0], Ref) and isinstance(ex.st.heap.get(args[0].id), ListObj) \
+                and isinstance(ex.st.heap[args[0].id].t, TArr) and ex.st.heap[args[0].id].t.rank == 1 and getattr(ex.contract, "fun_output_dim", None) is not None:
+            # array(list of n >= 1 vectors of the same length m): the (n, m) matrix of the rows; ragged rows are a ValueError (obligation)
+            from .engine import PyRaise
+
+            st = ex.st
+            L = st.heap[args[0].id]
+            m = ex.contract.fun_output_dim
+            if not st.decide(L.n >= 1):
+                raise Unsupported("numpy.array of an empty list of vectors (rank 1)")
+            j = z3.Int("j!na")
+            ex.check(z3.ForAll([j], z3.Implies(z3.And(0 <= j, j < L.n), L.t.dim(L.elems[j]) == m)), "safety", "array:rows-have-the-same-length", lineno, aux=True)
+            r, q = z3.Int("i!np0"), z3.Int("i!np1")
+            return _np().new(ex, "f", (L.n, m), z3.Lambda([r, q], L.t.els(L.elems[r])[q]))
         if _on(ex) and name == "int" and len(args) == 1 and isinstance(args[0], SV) and args[0].ty == TReal:
             t = args[0].term  # int(float): truncation toward zero
             if z3.is_app(t) and t.decl().kind() == z3.Z3_OP_DIV:
@@ -251,6 +370,15 @@ class C16Models:
         return CArrV(np_.call_builtin(ex, name, args, {}, lineno), np_.call_builtin(ex, name, args, {}, lineno))
 
     def setitem(self, ex, cont, key, v, lineno):
+        if isinstance(cont, PyListV):
+            from .engine import PyRaise
+
+            if not isinstance(key, int) or isinstance(key, bool):
+                raise Unsupported("symbolic index into a list of subscript components")
+            if not -len(cont.items) <= key < len(cont.items):
+                raise PyRaise("IndexError", lineno)
+            cont.items[key] = v
+            return True
         if not isinstance(cont, CArrV):
             return NotImplemented
         if not isinstance(v, CArrV):
@@ -309,6 +437,9 @@ class C16Models:
 
     # ------------------------------------------------------------------ selections
     def isinstance_(self, ex, v, cls):
+        if _on(ex) and isinstance(v, Ref) and isinstance(ex.st.heap.get(v.id), ArrObj) and not isinstance(cls, tuple) \
+                and (cls.name if isinstance(cls, BuiltinV) else getattr(cls, "qualname", "?")).rsplit(".", 1)[-1] == "Sized":
+            return True  # numpy arrays have a length
         if not _is_sel(v):
             return NotImplemented
         classes = cls if isinstance(cls, tuple) else (cls,)
@@ -390,13 +521,15 @@ class C16Models:
             return self._complex_binop(ex, op, a, b, lineno)
         if not _on(ex) or op != "Mult":
             return NotImplemented
+        if isinstance(a, tuple) and len(a) == 1 and isinstance(a[0], tuple) and a[0] and a[0][0] == "slice" and isinstance(b, int) and not isinstance(b, bool):
+            return PyListV([a[0]] * b)  # [slice(None)] * ndim: a (mutable) list of subscript components
         if isinstance(a, tuple) and len(a) == 1 and isinstance(a[0], BoundMethod) and ex.num(b) is not None and ex.num(b)[1] == TInt:
             n = ex.num(b)[0]
             return RepeatV(a[0], z3.simplify(z3.If(n > 0, n, 0)))
         return NotImplemented
 
     # ------------------------------------------------------------------ [x, *xs]
-    def list_display(self, ex, node):
+    def starred_list_display(self, ex, node):
         if not _on(ex):
             return NotImplemented
         st = ex.st
@@ -542,6 +675,11 @@ class C16Models:
         if len(args) != 1 or kwargs:
             raise Unsupported("execute(inputs) with callbacks")
         inputs = st.heap[args[0].id] if isinstance(args[0], Ref) else None
+        if isinstance(inputs, ArrObj) and inputs.rank == 2 and inputs.kind == "f":
+            # a matrix as the sequence of inputs: one task per row (execute uses len(inputs) and inputs[i])
+            A, row_t = inputs, TArr("f", 1)
+            r, q = z3.Int("r!pe"), z3.Int("i!np0")
+            inputs = ListObj(row_t, A.shape[0], z3.Lambda([r], row_t.dt.mk(A.shape[1], z3.Lambda([q], z3.Select(A.elems, r, q)))))
         if not isinstance(inputs, ListObj) or not isinstance(inputs.t, (TArr, TCArr)):
             raise Unsupported("execute on something else than a list of arrays")
         w = recv.workers
